@@ -18,25 +18,28 @@ RLIMIT = 150
 H = u_stack.H
 R = u_table.R
 
+K = 12     # @slices in u_inbody.contracts
+NAMES = ['step__in_body'] + ['step__in_body__s%d' % k for k in range(1, K + 1)]
+BODY = tuple('TreeBuilder::' + n for n in NAMES)
 REWRITES = [
-    Rewrite('R32-vecmacro', r'attrs: vec!\[\],', 'attrs: no_attrs(),', only=('TreeBuilder::step__in_body',), min_count=1),
+    Rewrite('R32-vecmacro', r'attrs: vec!\[\],', 'attrs: no_attrs(),', only=BODY, min_count=1),
 ] + [rw for rw in u_table.REWRITES if not (rw.only and all(o.startswith('TreeBuilder::step__') for o in rw.only))] + [
-    Rewrite('S-fragment-close', r'\}\s*\Z', '} }', only=('TreeBuilder::step__in_body',)),
+    Rewrite('S-fragment-close', r'\}\s*\Z', '} }', only=BODY),
     # R38: Option<Ref<Handle>> glue
     Rewrite('R38-refmap', r'self\.body_elem\(\)\.as_deref\(\)\.cloned\(\)', 'opt_cloned(self.body_elem())', min_count=1),
     Rewrite('R38-refmap', r'self\.body_elem\(\)\.map\(\|b\| b\.clone\(\)\)', 'opt_cloned(self.body_elem())', min_count=1),
     # R37: `.iter().find(closure).cloned()` on the stack of open elements
-    Rewrite('R37-find', r'self\s*\.open_elems\s*\.borrow\(\)\s*\.iter\(\)\s*\.find\(', 'vec_find_cloned(&self.open_elems.borrow(), ', only=('TreeBuilder::step__in_body',), min_count=1),
-    Rewrite('R37-find', r'\)\s*\.cloned\(\);(\s*)self\.process_end_tag_in_body\(tag\);', r');\1self.process_end_tag_in_body(tag);', only=('TreeBuilder::step__in_body',), min_count=1),
+    Rewrite('R37-find', r'self\s*\.open_elems\s*\.borrow\(\)\s*\.iter\(\)\s*\.find\(', 'vec_find_cloned(&self.open_elems.borrow(), ', only=BODY, min_count=1),
+    Rewrite('R37-find', r'\)\s*\.cloned\(\);(\s*)self\.process_end_tag_in_body\(tag\);', r');\1self.process_end_tag_in_body(tag);', only=BODY, min_count=1),
     # R39: local tag sets of the <li>/<dd>/<dt> rule
     Rewrite('R39-localset', r'declare_tag_set!\(close_list = "li"\);', '', min_count=1),
     Rewrite('R39-localset', r'declare_tag_set!\(close_defn = "dd" "dt"\);', '', min_count=1),
     Rewrite('R39-localset', r'declare_tag_set!\(extra_special = \[special_tag\] - "address" "div" "p"\);', '', min_count=1),
-    Rewrite('R11-byvalue', r'name\.local\.clone\(\)', 'name.local', only=('TreeBuilder::step__in_body',)),
+    Rewrite('R11-byvalue', r'name\.local\.clone\(\)', 'name.local', only=BODY),
     # R34: the guard of `Some(ref node) if G => { BODY }, _ => {},` is moved into the arm (`Some(ref node) => { if G { BODY } }`): Verus loses
     #      track of `&mut self` inside a guarded arm; same meaning because the only arm that follows does nothing
     Rewrite('R34-guard-into-arm', r'Some\(ref node\)\s*if (self\.open_elems\.borrow\(\)\.len\(\) != 1\s*&& !self\.in_html_elem_named\(local_name!\("template"\)\)) =>\s*\{(\s*self\.frameset_ok\.set\(false\);\s*self\.sink\.add_attrs_if_missing\(node, tag\.attrs\))\s*\},',
-            r'Some(ref node) => { if \1 {\2 } },', only=('TreeBuilder::step__in_body',), min_count=1),
+            r'Some(ref node) => { if \1 {\2 } },', only=BODY, min_count=1),
 ]
 
 
@@ -51,8 +54,10 @@ def _assume(p):
 BASE = [q for q in (_assume(p) for p in u_table.PARTS[:-1]) if q is not None]
 PARTS = BASE + [
     Prelude('body.spec.rs'),
+] + [
     Fragment(R, 'step', 'TreeBuilder', r'InsertionMode::InBody => match token \{',
-             'fn step__in_body(&mut self, token: Token) -> ProcessResult { match token', 'step__in_body', wrap='impl TreeBuilder'),
+             'fn %s(&mut self, token: Token) -> ProcessResult { match token' % nm, nm, wrap='impl TreeBuilder') for nm in NAMES
+] + [
     Raw('} // verus!\nfn main() {}'),
 ]
 DROPS = u_table.DROPS
